@@ -52,9 +52,11 @@ for sid in sorted(own):
 n_x = sum(1 for sid in own if not sid.startswith(("harmless", "own-")) and cell(own[sid].get(sid.split('-')[0])) == "**X**")
 L += ["", f"{n_x} of {sum(1 for s in own if not s.startswith(('harmless', 'own-')))} seeds are caught by the check of their own property with a concrete failing input.", ""]
 if allp:
-    L += ["## Every check against each seed (correspondence and oracles only, `--skip-lean`; rows completed so far)", "",
+    L += ["## Every check against each seed (correspondence and oracles only, `--skip-lean`; first-round seeds; run at commit 8d664da)", "",
           "| seed | " + " | ".join(p[1:] for p in ALL) + " |", "|---|" + "---|" * len(ALL)]
     for sid in sorted(allp):
+        if sid.startswith(("harmless", "own-")):
+            continue
         L.append(f"| {sid} | " + " | ".join(cell(allp[sid].get(p)) for p in ALL) + " |")
     L.append("")
 if harm:
